@@ -212,6 +212,10 @@ func (e *composerEnv) projectPatch(p patch.Patch) CPatch {
 			}
 
 			switch t := m["value"].(type) {
+			case nil:
+				if _, has := m["value"]; has {
+					j.Val = CVal{T: "null"}
+				}
 			case float64:
 				j.Val = CVal{T: "int", V: int(t)}
 			case map[string]interface{}:
